@@ -999,6 +999,9 @@ func (s *ValueSpec) End() token.Pos {
 	if n := len(s.Values); n > 0 {
 		return s.Values[n-1].End()
 	}
+	if s.Tag != nil {
+		return s.Tag.End()
+	}
 	if s.Type != nil {
 		return s.Type.End()
 	}
